@@ -1064,3 +1064,18 @@ V("C15", "benign-wait-procs-max-timeout-hoisted", I,
   ("        for proc in alive:\n            # Make sure that every complete iteration (all processes)\n            # will last max 1 sec.\n            # We do this because we don't want to wait too long on a\n            # single process: in case it terminates too late other\n            # processes may disappear in the meantime and their PID\n            # reused.\n            max_timeout = 1.0 / len(alive)\n            if timeout is not None:",
    "        max_timeout = 1.0 / len(alive)\n        for proc in alive:\n            if timeout is not None:"),
   "silent")
+V("C17", "ioprio-guard-drops-negative", PC,
+  ("    if (ioclass < 0 || ioclass > 7 ||\n            iodata < 0 || iodata > (int)IOPRIO_PRIO_MASK) {",
+   "    if (ioclass > 7 || iodata > (int)IOPRIO_PRIO_MASK) {"), "fires:C17.R4")
+V("C17", "ioprio-guard-too-wide", PC,
+  ("    if (ioclass < 0 || ioclass > 7 ||", "    if (ioclass < 0 || ioclass > 0x7ffff ||"),
+  "fires:C17.R4")
+V("C17", "benign-ioprio-guard-split", PC,
+  ("    if (ioclass < 0 || ioclass > 7 ||\n            iodata < 0 || iodata > (int)IOPRIO_PRIO_MASK) {\n        errno = EINVAL;\n        return PyErr_SetFromErrno(PyExc_OSError);\n    }\n",
+   "    if (ioclass < 0 || 7 < ioclass) {\n        errno = EINVAL;\n        return PyErr_SetFromErrno(PyExc_OSError);\n    }\n    if (iodata < 0 || iodata > (int)IOPRIO_PRIO_MASK) {\n        errno = EINVAL;\n        return PyErr_SetFromErrno(PyExc_OSError);\n    }\n"),
+  "silent")
+V("C17", "utmp-host-through-pointer", UC,
+  [("    struct utmp *ut;\n", "    struct utmp *ut;\n    const char *host;\n"),
+   ("        if (strncmp(ut->ut_host, \":0\", sizeof(ut->ut_host)) == 0 ||\n                strncmp(ut->ut_host, \":0.0\", sizeof(ut->ut_host)) == 0)\n            py_hostname = PyUnicode_DecodeFSDefault(\"localhost\");\n        else\n            py_hostname = PyUnicode_DecodeFSDefaultAndSize(\n                ut->ut_host, strnlen(ut->ut_host, sizeof(ut->ut_host)));",
+    "        host = ut->ut_host;\n        if (strcmp(host, \":0\") == 0 || strcmp(host, \":0.0\") == 0)\n            host = \"localhost\";\n        py_hostname = PyUnicode_DecodeFSDefault(host);")],
+  "fires:C17.R2")
